@@ -17,7 +17,7 @@ RULE = ("C01 pair classes in every accepted spelling (opaque kinds rotated, tran
         "cm_colors_quick_report.html / cm_colors_bulk_report.html inside the cwd. Non-trivial = pair that needed fixing; distinct = (pair, spelling, config).")
 ASSUMPTIONS = ["audit events cover Python-level file creation (open, os.*, shutil.*, tempfile.*, subprocess); bytecode caching is disabled in the harness",
                "stdout produced by show=True / 'Report generated' by save_report=True is asked-for output"]
-MUST_OBSERVE = {"any": ["default_windows", "flag_calls:show", "flag_calls:save", "flag_calls:show+save", "bulk_default_windows", "bulk_report_calls", "outcome:fixed", "outcome:failed", "outcome:unchanged"]}
+MUST_OBSERVE = {"any": ["default_windows", "flag_calls:show", "flag_calls:save", "flag_calls:show+save", "bulk_default_windows", "bulk_report_calls", "outcome:fixed", "outcome:failed", "outcome:unchanged", "lenient_or_invalid_windows"]}
 SIZES = {"quick": 1600, "thorough": 16000}
 ALLOWED = {"cm_colors_quick_report.html", "cm_colors_bulk_report.html"}
 
@@ -53,6 +53,7 @@ def work(shard, rec):
     kinds = SP.OPAQUE_KINDS
     # make sure the lazily imported modules are loaded before any window opens
     lib.ColorPair("#777", "#fff").make_readable()
+    lenient_default_path(rec, lib, scratch, rnd)
     for i, (cls, t, b) in enumerate(triples):
         t, b = tuple(t), tuple(b)
         if i % 5 == 4:
@@ -153,15 +154,56 @@ def work(shard, rec):
                 pass
 
 
+LENIENT = ["rgba(0, 0, 0, 50)", (0, 0, 0, 50), [10, 20, 30, 80], "20, 40, 200, 40", "(10,20,30)", "rgb 10 20 30", (0.5, 0.5, 0.5), (1.0, 0.0, 0.0),
+           "rgb(10%, 20%, 30%)", "rgba(10,20,30,100)", "hsla(120, 50%, 25%, 30)", "10 20 30", (120.0, 0.5, 0.5), (200, 0.4, 0.6, 0.5), "  #ABC  ", "RED",
+           "rgb(10.6, 20.2, 30.9)", "hsl(-30, 50%, 50%)", (12.0, 200.0, 99.0)]
+INVALID = ["notacolor", "#12", "", "rgb(1,2)", "rgb(300,0,0)", (1, 2), (300, 0, 0), (None, 0.5, 0.5, 1.0), [None, 1, 2], "hsl(10, 200%, 50%)", "var(--x)", "inherit", "\x00", (1, 2, 3, 4, 5)]
+
+
+def lenient_default_path(rec, lib, scratch, rnd):
+    """Leniently accepted and invalid inputs: the default path must stay silent for them too."""
+    bgs = ["#ffffff", (17, 17, 17), "rgb(200, 210, 220)"]
+    for k, x in enumerate(LENIENT + INVALID):
+        bg = bgs[k % len(bgs)]
+        case = {"lenient": repr(x), "bg": repr(bg)}
+        rec.ev()
+        for text, back in ((x, bg), (bg, x)):
+            try:
+                with IOWindow(scratch) as w:
+                    pair = lib.ColorPair(text, back, large_text=bool(k & 1))
+                    _ = (pair.is_valid, pair.errors, pair.is_readable)
+                    pair.make_readable(mode=k % 3, very_readable=bool(k & 2))
+                    lib.make_readable_bulk([(text, back), ("#777", "#fff"), (text, back, True)], mode=k % 3)
+            except Exception as e:
+                if x in INVALID:
+                    rec.count("skipped:invalid input raised (C14)")
+                else:
+                    rec.violation(f"default path raised {type(e).__name__}: {e} for text={text!r} bg={back!r}", case)
+                continue
+            rec.count("default_windows")
+            rec.count("lenient_or_invalid_windows")
+            if not w.silent():
+                rec.violation(f"default path not silent for leniently accepted / invalid input text={text!r} bg={back!r}: {w.describe()}", case)
+    rec.nontrivial(("lenient", len(LENIENT), len(INVALID)))
+
+
 def replay(case):
     from cmv.lib import Lib
     import tempfile
     lib = Lib()
     d = tempfile.mkdtemp(prefix="c17-replay-")
     os.chdir(d)
+    lib.ColorPair("#777", "#fff").make_readable()
+    if "lenient" in case:
+        text, bg = eval(case["lenient"]), eval(case["bg"])
+        with IOWindow(d) as w:
+            p = lib.ColorPair(text, bg)
+            p.make_readable()
+            lib.make_readable_bulk([(text, bg)])
+        print(f"ColorPair({text!r},{bg!r}) default path:", "silent" if w.silent() else w.describe())
+        return w.silent()
     text = SP.from_json(case["text"], case["tk"])
     bg = SP.from_json(case["bg"], case["bk"])
-    lib.ColorPair("#777", "#fff").make_readable()
     ok = True
     with IOWindow(d) as w:
         plain = lib.ColorPair(text, bg, large_text=case["large"]).make_readable(mode=case["mode"], very_readable=case["vr"])
